@@ -232,14 +232,20 @@ def main():
     native_results = []
     for nc in cfg.get('native_checks', []):
         outp = os.path.join(OUT, 'replays', pid, '_native_%s.json' % nc['name'])
-        p = subprocess.run([VENV_PY] + nc['cmd'] + [tier, str(seed), outp], cwd=HERE, capture_output=True, text=True,
-                           env=dict(os.environ, PYVC_REPO=REPO, PYTHONPATH=HERE))
+        rc_ = None
+        try:
+            p = subprocess.run([VENV_PY] + nc['cmd'] + [tier, str(seed), outp], cwd=HERE, capture_output=True, text=True,
+                               env=dict(os.environ, PYVC_REPO=REPO, PYTHONPATH=HERE), timeout=int(nc.get('timeout', 5400)))
+            rc_ = p.returncode
+            out_ = p.stdout + p.stderr
+        except subprocess.TimeoutExpired:
+            rc_, out_ = 3, 'bounded check did not finish within %d s (no verdict)' % int(nc.get('timeout', 5400))
         try:
             r = json.load(open(outp))
         except Exception:
-            r = {'error': (p.stdout + p.stderr)[-1500:], 'violations': []}
+            r = {'error': out_[-1500:], 'violations': []}
         r['name'] = nc['name']
-        r['rc'] = p.returncode
+        r['rc'] = rc_
         r['bound'] = nc.get('bound', '')
         r['role'] = nc.get('role', 'stand-in')
         native_results.append(r)
